@@ -132,6 +132,12 @@ func init() {
 		NotCovered: "apply(a, diff(a,b)) = b and emptiness iff equal: value-level",
 	})
 	registerProp(&PropDef{
+		ID:    "C11",
+		Rules: []string{"M-OLD", "M-NEW", "M-DROP", "A3", "A3-TABLE", "A3-DISTINCT", "A3-REPAIR", "ERR-USE", "ERR-LOOP", "MAP-EQ"},
+		Explanation: "Decides only the parts of the aggregation law that are visible in the shape of the accumulator code, not the algebra over rows: (M-OLD) in merge and mergeRowUpdate the accumulated update's old value is only ever taken from the incoming update on the edge where the accumulator has none yet (first operation) - so it stays the first old value; (M-NEW) every assignment of its new value stores the incoming update's new value, nil (final delete) or its own; (M-DROP) addUpdate stores the merged update only on the not-empty edge of the emptiness test and removes the entry on the other - an update that cancels out disappears; (A3, A3-TABLE, A3-DISTINCT, A3-REPAIR) the in-place difference/merge algorithms only rewrite values the accumulator owns, never the first old row or an operand handed in by the caller, and a rewritten field is written back; (ERR-USE, ERR-LOOP) a merge that fails (unsupported sequence) is reported, not dropped; (MAP-EQ) no map comparison through single-value lookups.",
+		NotCovered: "that modify∘modify composes to the difference between first old and last new for every column type, cancellation of overlapping set/map differences, insert∘modify = insert of the final row: value-level algebra over rows",
+	})
+	registerProp(&PropDef{
 		ID:    "C12",
 		Rules: []string{"K1", "K2", "K3", "E6"},
 		Explanation: "Decides codec agreement for every hand-written MarshalJSON/UnmarshalJSON pair of package ovsdb: both halves are reduced to a map wire member (or array position) -> receiver fields by a taint propagation over the typed AST; no member is dropped, duplicated or cross-wired between encoder and decoder (K1 keyed: BaseType, ColumnType, ColumnSchema, MonitorSelect; K2 positional: Condition, Mutation, MonitorCondSinceReply, UUID); the error-name tables of errorFromResult and ResultFromError are inverse bijections over all declared names (K3); the decoders of Condition and Mutation accept exactly the declared functions/mutators (E6).",
@@ -228,6 +234,9 @@ func init() {
 	registerRule(&RuleDef{ID: "GEN-ENUM", Min: 1, Doc: "enum alias names only with enum types on", Run: ruleGENENUM})
 	registerRule(&RuleDef{ID: "L-ATOM", Min: 8, Doc: "no value read from a guarded field is used in a later critical section of the same lock (split critical section / check-then-act)", Run: ruleLATOM("client", "cache", "server", "database/inmemory")})
 	add("C05", "L-ATOM")
+	registerRule(&RuleDef{ID: "M-OLD", Min: 1, Doc: "the accumulated update keeps its first old value (pass also emits M-NEW)", Run: ruleMOLDNEW})
+	registerRule(&RuleDef{ID: "M-NEW", Min: 3, Doc: "the accumulated update's new value is the incoming one, nil, or its own (emitted by M-OLD)", Run: noop})
+	registerRule(&RuleDef{ID: "M-DROP", Min: 2, Doc: "an accumulated update that became empty is removed, and only non-empty ones are stored", Run: ruleMDROP})
 	registerRule(&RuleDef{ID: "T-UUIDFREE", Min: 1, Doc: "an insert's uuid is checked to be free before the update is built", Run: ruleTUUIDFREE})
 	add("C02", "T-UUIDFREE")
 	add("C17", "T-UUIDFREE")
